@@ -326,8 +326,10 @@ func (bd *Builder) Add(blockSpec BlockSpec) (*Block, error) {
 		}
 
 		// --- factoid block
-		for _, f := range bs.Fct {
-			b.Fct = append(b.Fct, buildFct(f, b.Time))
+		for fi, f := range bs.Fct {
+			// factomd never includes the same factoid transaction twice: make
+			// each one unique through its millisecond timestamp
+			b.Fct = append(b.Fct, buildFct(f, b.Time.Add(time.Duration(fi)*7*time.Millisecond)))
 		}
 		b.fblockRaw = buildFBlock(h, b)
 
